@@ -13,7 +13,8 @@ RULE = (
     "each judged by the textbook formula, the Bus offset where the Bus maps the address, and the round trip; "
     "pointer cases: (base, pointer) / (base, 2 bytes) pairs hashed, several results of one converter kept and judged after the last call, pointer tables with 2/3/4-byte entries "
     "read through Script.read_pointers; batch cases: forward conversions of many offsets in all modes "
-    "first, back conversions afterwards (the functions must not depend on the call history)"
+    "first, back conversions afterwards, with assemblies under every mapping (in memory and through the file API) in between (the functions must not depend on the call "
+    "history or on what the assembler did before); calls are made positionally and with named arguments"
 )
 ASSUMPTIONS = [
     "textbook: LoROM bank=o//0x8000 (+0x80 for the second variant), low word 0x8000+o%0x8000; HiROM 0xC00000+o",
@@ -59,23 +60,67 @@ def textbook(o: int, mode: str) -> int:
     return (bank << 16) | (0x8000 + o % 0x8000)
 
 
+def assemble_something(rng: random.Random, res: Res) -> None:
+    """The conversions are free functions: what the assembler did earlier in the process (any mapping, any front end) is no input of theirs."""
+    from vf.frontends import file_api
+    from vf.harness import assemble
+
+    mapping = rng.choice(["low", "low2", "high"])
+    src = f"*={'0xC08000' if mapping == 'high' else '0x808000' if mapping == 'low2' else '0x008000'}\nstart:\nlda.w #0x1234\njsr.w start\n.dl start\n"
+    if rng.random() < 0.5:
+        file_api(rng.choice(["patch", "sfc"]), src, None, mapping, rng.random() < 0.5)
+    else:
+        assemble(src, rom=mapping)
+    res.count(f"assemblies_between_conversions[{mapping}]")
+
+
 class Ctx:
     def __init__(self) -> None:
+        import inspect
+
         from a816.cpu import cpu_65c816 as cpu
         from vf.harness import new_program
 
         self.cpu = cpu
+        # the conversions may be called with positional or with named arguments (names taken from the live signatures)
+        try:
+            self.r2s_names = list(inspect.signature(cpu.rom_to_snes).parameters)[:2]
+            self.s2r_names = list(inspect.signature(cpu.snes_to_rom).parameters)[:1]
+        except (TypeError, ValueError):
+            self.r2s_names, self.s2r_names = [], []
+        self._init_rest()
+
+    def r2s(self, o: int, mode, style: int = 0) -> int:
+        if style == 1 and len(self.r2s_names) == 2:
+            return self.cpu.rom_to_snes(o, **{self.r2s_names[1]: mode})
+        if style == 2 and len(self.r2s_names) == 2:
+            return self.cpu.rom_to_snes(**{self.r2s_names[1]: mode, self.r2s_names[0]: o})
+        return self.cpu.rom_to_snes(o, mode)
+
+    def s2r(self, a: int, style: int = 0) -> int:
+        if style and len(self.s2r_names) == 1:
+            return self.cpu.snes_to_rom(**{self.s2r_names[0]: a})
+        return self.cpu.snes_to_rom(a)
+
+    def _init_rest(self) -> None:
+        from vf.harness import new_program
+
+        cpu = self.cpu
         self.rt = {"low": cpu.RomType.low_rom, "low2": cpu.RomType.low_rom_2, "high": cpu.RomType.high_rom}
         self.bus = {"low": new_program("low").resolver.get_bus(), "high": new_program("high").resolver.get_bus()}
         self.cfg = {"low": rm.lorom(), "high": rm.hirom()}
+        self.n = 0
 
 
-def check_offset(res: Res, cx: Ctx, mode: str, o: int) -> None:
+def check_offset(res: Res, cx: Ctx, mode: str, o: int, style: int | None = None) -> None:
     res.evals += 1
     res.distinct_count += 1
-    wit = {"kind": "offset", "mode": mode, "o": o}
+    cx.n += 1
+    if style is None:
+        style = cx.n % 3          # positional / mode by name / both by name
+    wit = {"kind": "offset", "mode": mode, "o": o, "style": style}
     try:
-        a = cx.cpu.rom_to_snes(o, cx.rt[mode])
+        a = cx.r2s(o, cx.rt[mode], style)
     except Exception as e:  # noqa: BLE001
         res.violate("rom-to-snes-raises", f"rom_to_snes({o:#x}, {mode}) raised {e!r}", wit)
         return
@@ -98,7 +143,7 @@ def check_offset(res: Res, cx: Ctx, mode: str, o: int) -> None:
     if mode != "low2" or o < 0x200000:
         res.count("roundtrip_judged")
         try:
-            back = cx.cpu.snes_to_rom(a)
+            back = cx.s2r(a, style & 1)
         except Exception as e:  # noqa: BLE001
             back = f"{type(e).__name__}"
         if back != o:
@@ -230,14 +275,18 @@ def run_shard(shard: dict) -> Res:
             todo.append((rng.choice(["low", "low2"]), rng.randrange(0x200000)))
         rng.shuffle(todo)
         fwd = []
-        for mode, o in todo:
+        for k, (mode, o) in enumerate(todo):
+            if k % 997 == 0:
+                assemble_something(rng, res)
             try:
                 fwd.append((mode, o, cx.cpu.rom_to_snes(o, cx.rt[mode])))
             except Exception as e:  # noqa: BLE001
                 res.violate("rom-to-snes-raises", f"rom_to_snes({o:#x}, {mode}) raised {e!r}", {"kind": "offset", "mode": mode, "o": o})
         order = list(range(len(fwd)))
         rng.shuffle(order)
-        for i in order:
+        for k, i in enumerate(order):
+            if k % 1499 == 0:
+                assemble_something(rng, res)
             mode, o, a = fwd[i]
             if a != textbook(o, mode):
                 continue        # reported by the per-offset check
@@ -286,7 +335,7 @@ def replay(w: dict) -> Res:
         res.undecided("batch witnesses depend on the whole conversion history: re-run the shard")
         return res
     if w["kind"] == "offset":
-        check_offset(res, cx, w["mode"], w["o"])
+        check_offset(res, cx, w["mode"], w["o"], w.get("style"))
     elif w["kind"] == "pointer":
         check_pointer(res, cx, w["base"], w["p"])
     elif w["kind"] == "pointer_batch":
